@@ -119,74 +119,118 @@ func checkWasmCallClassification(p *core.Prog, r *core.Report, rule string) {
 		hasMarker   bool
 		wrapsCtx    bool
 	}
-	var sites []site
+	// the error of a failed execution may be built by a helper of the same package whose result wasmCall
+	// returns: the tests and the errors are then looked for in both, the helper's parameters standing for
+	// the arguments of the call
+	members := []*ssa.Function{fn}
+	subst := map[ssa.Value]ssa.Value{}
 	core.Instrs(fn, func(in ssa.Instruction) {
 		c, ok := in.(*ssa.Call)
 		if !ok {
 			return
 		}
-		cl := core.CommonCallee(c.Common())
-		if cl == nil || cl.Name() != "Errorf" || cl.Pkg() == nil || cl.Pkg().Path() != "fmt" {
+		callee := core.StaticFn(c.Common())
+		if callee == nil || callee.Pkg != fn.Pkg || callee.Blocks == nil || !isErrorTyped(c.Type()) {
 			return
 		}
-		k, ok := c.Call.Args[0].(*ssa.Const)
-		if !ok {
-			return
-		}
-		verbs := fmtVerbs(constant.StringVal(k.Value))
-		st := site{call: c}
-		for i, a := range errorfArgs(c) {
-			if i >= len(verbs) || a == nil {
-				continue
-			}
-			if isSentinel(a) {
-				st.hasMarker = true
-				if verbs[i] == 'w' {
-					st.wrapsMarker = true
+		returned := false
+		core.Instrs(fn, func(x ssa.Instruction) {
+			if ret, ok := x.(*ssa.Return); ok {
+				for _, rv := range core.ReturnValues(ret) {
+					if rv == ssa.Value(c) {
+						returned = true
+					}
 				}
 			}
-			if isCtxErr(a) && verbs[i] == 'w' {
-				st.wrapsCtx = true
+		})
+		if !returned {
+			return
+		}
+		members = append(members, callee)
+		for i, prm := range callee.Params {
+			if i < len(c.Call.Args) {
+				subst[prm] = c.Call.Args[i]
 			}
 		}
-		sites = append(sites, st)
 	})
+	var sites []site
+	for _, member := range members {
+		core.Instrs(member, func(in ssa.Instruction) {
+			c, ok := in.(*ssa.Call)
+			if !ok {
+				return
+			}
+			cl := core.CommonCallee(c.Common())
+			if cl == nil || cl.Name() != "Errorf" || cl.Pkg() == nil || cl.Pkg().Path() != "fmt" {
+				return
+			}
+			k, ok := c.Call.Args[0].(*ssa.Const)
+			if !ok {
+				return
+			}
+			verbs := fmtVerbs(constant.StringVal(k.Value))
+			st := site{call: c}
+			for i, a := range errorfArgs(c) {
+				if i >= len(verbs) || a == nil {
+					continue
+				}
+				if isSentinel(a) {
+					st.hasMarker = true
+					if verbs[i] == 'w' {
+						st.wrapsMarker = true
+					}
+				}
+				if isCtxErr(a) && verbs[i] == 'w' {
+					st.wrapsCtx = true
+				}
+			}
+			sites = append(sites, st)
+		})
+	}
 	// the three situations, recognised by the conditions they sit under
 	var panicEdge, ctxEdge, noCtxEdge []core.Edge
-	core.Instrs(fn, func(in ssa.Instruction) {
-		ifi, ok := in.(*ssa.If)
-		if !ok {
-			return
-		}
-		c, neg := core.StripNot(ifi.Cond)
-		bo, ok := c.(*ssa.BinOp)
-		if !ok || (bo.Op != token.NEQ && bo.Op != token.EQL) {
-			return
-		}
-		k, isK := bo.Y.(*ssa.Const)
-		if !isK || !k.IsNil() {
-			return
-		}
-		nonNil := 0
-		if (bo.Op == token.EQL) != neg {
-			nonNil = 1
-		}
-		if call, ok := bo.X.(*ssa.Call); ok {
-			if cl := core.CommonCallee(call.Common()); cl != nil && cl.Name() == "Err" {
-				if isCtxErr(call) {
-					ctxEdge = append(ctxEdge, core.Edge{From: ifi.Block(), Idx: nonNil})
-					noCtxEdge = append(noCtxEdge, core.Edge{From: ifi.Block(), Idx: 1 - nonNil})
-				} else if cl.Pkg() != nil && cl.Pkg().Path() == core.ModPath+"/"+pkgWasm {
-					panicEdge = append(panicEdge, core.Edge{From: ifi.Block(), Idx: nonNil})
+	for _, member := range members {
+		core.Instrs(member, func(in ssa.Instruction) {
+			ifi, ok := in.(*ssa.If)
+			if !ok {
+				return
+			}
+			c, neg := core.StripNot(ifi.Cond)
+			bo, ok := c.(*ssa.BinOp)
+			if !ok || (bo.Op != token.NEQ && bo.Op != token.EQL) {
+				return
+			}
+			k, isK := bo.Y.(*ssa.Const)
+			if !isK || !k.IsNil() {
+				return
+			}
+			nonNil := 0
+			if (bo.Op == token.EQL) != neg {
+				nonNil = 1
+			}
+			if call, ok := bo.X.(*ssa.Call); ok {
+				if cl := core.CommonCallee(call.Common()); cl != nil && cl.Name() == "Err" {
+					if isCtxErr(call) {
+						ctxEdge = append(ctxEdge, core.Edge{From: ifi.Block(), Idx: nonNil})
+						noCtxEdge = append(noCtxEdge, core.Edge{From: ifi.Block(), Idx: 1 - nonNil})
+					} else if cl.Pkg() != nil && cl.Pkg().Path() == core.ModPath+"/"+pkgWasm {
+						panicEdge = append(panicEdge, core.Edge{From: ifi.Block(), Idx: nonNil})
+					}
 				}
 			}
-		}
-	})
+		})
+	}
 	via := func(edges []core.Edge, c *ssa.Call) bool {
-		if len(edges) == 0 {
+		var own []core.Edge
+		for _, e := range edges {
+			if e.From.Parent() == c.Parent() {
+				own = append(own, e)
+			}
+		}
+		if len(own) == 0 {
 			return false
 		}
-		q := core.PathQuery{Fn: fn, CutEdge: func(e core.Edge) bool { return containsEdge(edges, e) }}
+		q := core.PathQuery{Fn: c.Parent(), CutEdge: func(e core.Edge) bool { return containsEdge(own, e) }}
 		_, reach := q.CanReach(nil, func(x ssa.Instruction) bool { return x == ssa.Instruction(c) })
 		return !reach
 	}
@@ -212,16 +256,18 @@ func checkWasmCallClassification(p *core.Prog, r *core.Report, rule string) {
 	})
 	okSame := execCtx != nil
 	nErr := 0
-	core.Instrs(fn, func(in ssa.Instruction) {
-		c, ok := in.(*ssa.Call)
-		if !ok || !isCtxErr(c) {
-			return
-		}
-		nErr++
-		if execCtx == nil || !(c.Call.Value == execCtx || sameExpr(c.Call.Value, execCtx, 3)) {
-			okSame = false
-		}
-	})
+	for _, member := range members {
+		core.Instrs(member, func(in ssa.Instruction) {
+			c, ok := in.(*ssa.Call)
+			if !ok || !isCtxErr(c) {
+				return
+			}
+			nErr++
+			if execCtx == nil || !(c.Call.Value == execCtx || sameExprSubst(c.Call.Value, execCtx, 3, subst)) {
+				okSame = false
+			}
+		})
+	}
 	r.Check(okSame && nErr > 0, rule, "wasmCall/same-context", "the context consulted to classify a failed execution is the context the module was executed under (ExecuteNewCall's), so an expired per-block deadline is seen", fmt.Sprintf("%d ctx.Err() tests; all on the execution context: %v", nErr, okSame), p.Pos(fn.Pos()))
 	// when that context is a field of the executor, every run() stores the per-call context into it before wasmCall
 	if f, _ := core.LoadedField(execCtx); f != nil {
